@@ -106,7 +106,7 @@ def run_regrid(ctx, n):
         step, xs, ys = gen_series(ctx.rng)
         inp = {"function": "regrid.regrid", "x": xs, "y": ys, "step": step}
         try:
-            ax, ay = np.array(xs), np.array(ys)
+            ax, ay = common.any_layout(ctx.rng, np.array(xs), 0.2), common.any_layout(ctx.rng, np.array(ys), 0.2)
             with common.session_logging(ctx.rng, 0.15):
                 got = [(int(k), float(x)) for k, x in rg.regrid(ax, ay, step)]
             err = None
